@@ -532,7 +532,8 @@ def reference_failures(res: dict) -> list[tuple[str, str, dict]]:
                     continue
                 elsewhere = [u for u, b_ in now.items() if b_ == m['body']
                              and u not in {x['uid'] for x in f['msgs']}]
-                if elsewhere and cmd[0] not in ('copy', 'append'):
+                into_itself = cmd[0] == 'move' and M.mbx_name(cmd[2]).decode() == name
+                if elsewhere and cmd[0] not in ('copy', 'append') and not into_itself:
                     fails.append(('served_after_restart',
                                   f'{name} uid {m["uid"]} became uid {elsewhere} by {cmd} '
                                   f'(UIDVALIDITY unchanged)', {'kind': 'uid_changed'}))
